@@ -546,6 +546,10 @@ impl Family for C01 {
         out
     }
 
+    fn long_running(s: &S01) -> bool {
+        s.giant.is_some()
+    }
+
     fn rule() -> &'static str {
         "one case = (endianness, backend word u8..u128, backend kind {recording stub, growable vector, fixed slice, WordAdapter over SimDisk, WordAdapter over std BufWriter over SimDisk}, history of <=48 write_bits(v,n)/write_unary(x)/flush with n biased to 0,1,63,64, space_left-1/=/+1, W-1/W/W+1 and v with random dirty high bits, unary spanning 0..5 words, close kind at the end of the history {drop, into_inner, flush;flush;drop, flush;into_inner}); a quarter of the runs replays the same history on all five word sizes. distinct_nontrivial = distinct (endianness, word, op kind, free space in the bit buffer before the op, n or unary-length class relative to the free space, previous op kind) signatures Scale scenarios: one run in 200-400 has several hundred operations or a zero run / unary part / copy / skip / slice above 2^16 bits; one run in 100 000 (sim/src/giant.rs) has a unary part of 2^32-2 .. 2^32+137 bits written to a sparse recording sink (only non-zero words and the word count are kept), compared with the non-zero words of the canonical image."
     }
